@@ -107,15 +107,17 @@ def run_case(case):
     d = compare(case, r, m)
     tried = 0
     chosen = set()
+    useless = set()
     while d is not None and tried < 12:
         # same-instant ties (an admission request coinciding with the head reaching the exit of a non-accumulating
         # belt) are not fixed by the statement: flip the resolution of the tie at the deviation instant and retry
-        tie = next((j for j, tt in enumerate(m["ties"]) if close(tt, d[0]) and j not in chosen), None)
+        tie = next((j for j, tt in enumerate(m["ties"]) if close(tt, d[0]) and j not in chosen and j not in useless), None)
         via_withdrawn = False
         if tie is None:
             # a tie whose admission was withdrawn again brings no item: its resolution only shows in later instants
             wd = list(getattr(r, "t_cancel_put", ())) + list(m.get("withdrawn", ()))
-            tie = next((j for j, tt in enumerate(m["ties"]) if j not in chosen and tt <= d[0] and any(close(tt, x) for x in wd)), None)
+            tie = next((j for j, tt in enumerate(m["ties"]) if j not in chosen and j not in useless and tt <= d[0]
+                        and any(close(tt, x) for x in wd)), None)
             via_withdrawn = tie is not None
         if tie is None:
             break
@@ -156,7 +158,9 @@ def run_case(case):
             res.classes.append("tie_flipped")
         else:
             chosen.discard(tie)
-            break
+            useless.add(tie)       # flipping this one does not help: try the other candidates
+            if not via_withdrawn:
+                break
     if d is not None:
         t, what, direction, i, a, b = d
         flag = structural_flag(case, r, m, d)
